@@ -193,7 +193,8 @@ def state(obj):
     r = _region_of(obj)
     m = _mesh_of(obj)
     st = {"pmin": np.array(r.pmin, float), "pmax": np.array(r.pmax, float),
-          "units": tuple(r.units), "dims": tuple(r.dims)}
+          "units": tuple(r.units), "dims": tuple(r.dims),
+          "tolerance_factor": float(r.tolerance_factor)}
     if m is not None:
         st["n"] = np.array(m.n)
         st["bc"] = m.bc
@@ -217,6 +218,8 @@ def same_state(a, b, tol):
         return "corners"
     if a["units"] != b["units"] or a["dims"] != b["dims"]:
         return "units/dims"
+    if a["tolerance_factor"] != b["tolerance_factor"]:
+        return "tolerance_factor"
     if "n" in a:
         if not np.array_equal(a["n"], b["n"]):
             return "n"
@@ -469,7 +472,10 @@ def region_case(ctx):
     if rng.random() < 0.5:  # distinct units make unit swaps observable
         units = [f"u{k}" for k in range(spec.nd)]
     p1, p2 = spec.corners()
-    region = df.Region(p1=p1, p2=p2, dims=spec.dims, units=units)
+    kw = {}
+    if rng.random() < 0.5:  # a non-default comparison tolerance must survive every step
+        kw["tolerance_factor"] = float(gen.pick(rng, [1e-9, 1e-10, 1e-13]))
+    region = df.Region(p1=p1, p2=p2, dims=spec.dims, units=units, **kw)
     model = Model(Box(spec.pmin, spec.pmax), units)
     kinds = ["translate", "scale", "rotate90"] if spec.nd > 1 else ["translate", "scale"]
     history(ctx, region, model, dims, kinds, label="region")
